@@ -20,7 +20,12 @@ RULE = ('correspondence cases: every class of table_riscv instantiated with dist
         'random operand tuples per class) -> real used_registers/defined_registers vs the exported flags; non-trivial = class '
         'with at least one register operand.  search: the real encode() bytes of every covered class executed by the Python '
         'twin of RV32Exec on random states (frame) and on state pairs that differ only in one undeclared register (reads)')
-EXPLANATION = ('PARTIAL: RISC-V RV32I + M base classes only (those C08 gives an RV32 expectation: R/I/S/B/U/J formats incl. the '
+EXPLANATION = ('UPDATE: the table theorems are now UNCONDITIONAL (c07_rv_frame_reads_full composes with C08\'s unbounded '
+               'c08_rv_reference for all in-range operands); RV32C: Spec/RVCExec.v defines exec16 by expansion, its ISA-side frame/'
+               'reads theorems are proved, the RVC class flags are checked by the oracle only (class table on C08\'s agreement '
+               'domain + every 2-byte instance of generated code; implicit x2 / x1 of the sp- and link-forms accepted). '
+               'ORIGINAL TEXT: '
+               'PARTIAL: RISC-V RV32I + M base classes only (those C08 gives an RV32 expectation: R/I/S/B/U/J formats incl. the '
                'pseudo forms mv/nop/j/bgt/ble/bgtu/bleu and the label-bearing lui/auipc/addi/lw/jal forms). Unbounded in machine '
                'state and operand values GIVEN the decode agreement of C08 at those operands (C08 proves that agreement on its '
                'bounded operand domain; the _bounded theorems compose the two). NOT covered: CSR/system classes (csr*, mret, '
@@ -284,6 +289,9 @@ def state_pair_obs(s):
     return (tuple(s.regs), s.pc, tuple(sorted(s.mem.items())))
 
 
+# registers the ISA documents as implicit state of a compressed form (stack pointer x2; link register x1)
+RVC_IMPLICIT = {'c.addi16sp': {2}, 'c.addi4spn': {2}, 'c.lwsp': {2}, 'c.swsp': {2}, 'c.jal': {1}, 'c.jalr': {1}}
+
 SYM_ADDR, INS_ADDR = 0x000107f4, 0x00010000     # distance fits the B-type range
 
 
@@ -310,7 +318,7 @@ def regnums(regs):
     return out
 
 
-def exec_checks(ctx, rng, dec, uses, defs, n_st, meta, pc=None):
+def exec_checks(ctx, rng, dec, uses, defs, n_st, meta, pc=None, ilen=4):
     """frame + non-interference of one decoded instruction against declared uses/defs on n_st random states.
     meta: dict(cls, printed, bytes, ops, where).  Returns (evaluations, violation reported?)"""
     n_eval = 0
@@ -321,7 +329,7 @@ def exec_checks(ctx, rng, dec, uses, defs, n_st, meta, pc=None):
         s0.mem = HashedMem(rng.getrandbits(20))
         s1 = s0.copy()
         s1.mem = HashedMem(s0.mem.seed)
-        RV.exec1(dec, s1)
+        RV.exec1(dec, s1, ilen)
         n_eval += 1
         state = {'regs': s0.regs, 'pc': s0.pc, 'mem': 'byte(a) = (a*2654435761 + %d*40503 + (a>>7)) & 255' % s0.mem.seed}
         undeclared = [r for r in range(32) if s0.regs[r] != s1.regs[r] and r not in defs]
@@ -343,7 +351,7 @@ def exec_checks(ctx, rng, dec, uses, defs, n_st, meta, pc=None):
         s2.regs[r] = RV.u32(s0.regs[r] ^ rng.choice([1, 0x80000000, 0xffffffff, rng.getrandbits(32) | 1]))
         s3 = s2.copy()
         s3.mem = HashedMem(s0.mem.seed)
-        RV.exec1(dec, s3)
+        RV.exec1(dec, s3, ilen)
         n_eval += 1
         diff = ['x%d' % q for q in range(32)
                 if s1.regs[q] != s3.regs[q] and not (s1.regs[q] == s0.regs[q] and s3.regs[q] == s2.regs[q])]
@@ -397,6 +405,50 @@ def search(ctx, info=None, deep=True):
             n_eval += k
             if hit:
                 break
+    # compressed classes (riscv:rvc): decode16 + expansion to the base instruction, executed as 2-byte instructions
+    rvc_classes = {}
+    try:
+        rdescs = [d for d in T.export_arch('riscv:rvc')[0] if d['tokens'] == [(16, False)]]
+    except Exception:   # noqa: BLE001
+        rdescs = []
+    for d in rdescs:
+        for _ in range(3 * n_ops):
+            ops = rand_ops(rng, d)
+            if rng.random() < 0.7:      # most compressed forms only take x8..x15
+                m8 = {}
+                ops = [m8.setdefault(v, rng.randrange(8, 16)) if o['kind'] == 'reg' else v for o, v in zip(d['ops'], ops)]
+            try:
+                ins = T.instantiate(d['pycls'], d['vindex'], ops)
+                bs, rel = relocated_bytes(ins, sym=INS_ADDR + 0x40)
+                uses = regnums(ins.used_registers)
+                defs = regnums(ins.defined_registers) | regnums(ins.clobbers)
+            except Exception:   # noqa: BLE001
+                continue
+            if len(bs) != 2:
+                continue
+            d16 = c08.rvc_decode16(list(bs))
+            dec = RV.expand16((d16[0], list(d16[1]))) if d16 else None
+            if dec is None or dec[0] not in FMT_ROLES:
+                continue
+            # only operand tuples on which the reference decoder reads what ppci prints (C08's RVC agreement domain):
+            # register operands outside x8..x15 for the 3-bit fields etc. are C08 findings, not annotation questions
+            exp16 = c08.rvc_expect(''.join(d['syntax'][:3]), len(d['ops']))
+            if exp16 is None or exp16[0] != d16[0] or list(c08.apply_view(exp16[1], ops)) != list(d16[1]) \
+                    or not c08.rvc_valid(d16[0], list(d16[1])):
+                continue
+            implicit = RVC_IMPLICIT.get(d16[0], set())
+            rvc_classes[d['cls']] = d16[0]
+            try:
+                printed = str(ins)
+            except Exception:   # noqa: BLE001
+                printed = d['cls']
+            k, hit = exec_checks(ctx, rng, dec, uses | implicit, defs | implicit, n_st,
+                                 dict(cls=d['cls'], printed=printed, bytes=bs.hex(), ops=ops, where='rvc class table'),
+                                 pc=INS_ADDR if rel else None, ilen=2)
+            n_eval += k
+            if hit:
+                break
+    ctx.cov['stages']['rvc_classes_executed'] = rvc_classes
     ctx.cov['stages']['search_executions'] = n_eval
     ctx.cov['stages']['classes_executed_with_relocation_applied'] = sorted(reloc_classes)
     ctx.cov['evaluations'] += n_eval
@@ -469,7 +521,7 @@ def instance_stage(ctx, info):
         except Exception as ex:   # noqa: BLE001
             stats[march] = {'error': '%s: %s' % (type(ex).__name__, str(ex)[:100])}
             continue
-        seen, per_class, uncovered, n_eval = set(), {}, {}, 0
+        seen, per_class, uncovered, n_eval, rvc_seen = set(), {}, {}, 0, {}
         for ins in instances:
             cls = type(ins).__name__
             if cls in ('Dcd2',) or not getattr(type(ins), 'tokens', None):
@@ -483,9 +535,18 @@ def instance_stage(ctx, info):
             if key in seen:
                 continue
             seen.add(key)
-            dec = RV.decode(list(bs)) if len(bs) == 4 else None
+            dec, ilen, implicit = (RV.decode(list(bs)) if len(bs) == 4 else None), 4, set()
+            if len(bs) == 2:
+                from props import c08
+                d16 = c08.rvc_decode16(list(bs))
+                dec = RV.expand16((d16[0], list(d16[1]))) if d16 else None
+                ilen = 2
+                if d16:
+                    implicit = RVC_IMPLICIT.get(d16[0], set())
+                if dec is not None:
+                    rvc_seen[d16[0]] = rvc_seen.get(d16[0], 0) + 1
             if dec is None or dec[0] not in FMT_ROLES:
-                uncovered[cls] = 'not an RV32I/M base instruction for the interpreter (%d bytes)' % len(bs)
+                uncovered[cls] = 'not an RV32I/M/C instruction for the interpreter (%d bytes)' % len(bs)
                 continue
             per_class[cls] = per_class.get(cls, 0) + 1
             try:
@@ -499,13 +560,14 @@ def instance_stage(ctx, info):
             except Exception:   # noqa: BLE001  (riscv cannot print allocated virtual registers)
                 printed = '%s %s' % (cls, [sorted(regnums([getattr(ins, fa._name)])) or getattr(ins, fa._name)
                                             for fa in type(ins).syntax.formal_arguments])
-            k, _hit = exec_checks(ctx, rng, dec, uses, defs, 3,
+            k, _hit = exec_checks(ctx, rng, dec, uses | implicit, defs | implicit, 3,
                                   dict(cls=cls, printed=printed, bytes=bs.hex(), ops=[], where='instance in code generated for ' + march),
-                                  pc=INS_ADDR if rel else None)
+                                  pc=INS_ADDR if rel else None, ilen=ilen)
             n_eval += k
         stats[march] = {'instances_recorded': len(instances), 'distinct_checked': sum(per_class.values()),
                         'classes_checked': sorted(per_class), 'classes_not_in_class_table': sorted(set(per_class) - table_classes),
-                        'classes_seen_but_not_executable': uncovered, 'executions': n_eval}
+                        'classes_seen_but_not_executable': uncovered, 'executions': n_eval,
+                        'compressed_forms_executed': rvc_seen}
         ctx.cov['evaluations'] += n_eval
     ctx.cov['stages']['instances'] = stats
 
@@ -554,7 +616,7 @@ def run(ctx):
         'not_covered': [d['cls'] for d in info['good'] if not is_covered(d, c08)],
         'nonwf_not_in_table': info['nonwf'], 'custom_not_traced': info['custom'],
         'call_rows': len(info['calls']), 'abi': info['facts']}
-    ok, _ = ctx.build(['Proofs/C07_rv.vo'])
+    ok, _ = ctx.build(['Proofs/C07_rv.vo', 'Proofs/C07_rvc.vo'])
     if ok:
         ctx.check_props('Props/C07.v')
     if ctx.build(['Gen/Tab_rv_rw.vo', 'Lib/Val.vo'])[0]:
@@ -590,7 +652,10 @@ def run(ctx):
 
 
 MANIFEST = {
-    'text': 'PARTIAL (other): RISC-V RV32I/M base instruction classes only. The Operand(read=, write=) flags of every riscv class '
+    'text': 'UPDATE: unconditional for the 53 covered base classes (c07_rv_frame_reads_full uses C08\'s unbounded reference '
+            'agreement); RV32C compressed forms are executed by an expansion semantics (ISA-side theorems proved, class flags checked '
+            'by oracle only) which found c.sub/c.xor/c.or/c.and/c.addi declaring rd write-only (known finding + fix diff). '
+            'DETAIL: PARTIAL (other): RISC-V RV32I/M base instruction classes only. The Operand(read=, write=) flags of every riscv class '
             'are exported; for each class that is a base RV32I/M instruction (R/I/S/B/U/J formats, pseudo forms mv/nop/j/bgt/ble/'
             'bgtu/bleu, label forms of lui/auipc/addi/lw/jal) Coq proves against an independently written ISA semantics '
             '(Spec/RV32Exec.v) that, for all operand values and all machine states, executing the decoded bytes changes no '
